@@ -105,4 +105,106 @@ PoolC03b(tests, maxN, B) ==
 \* (flat path)[n]  and  (//name)[n]
 PoolC03paren(paths, maxN) == {Filter(pa, <<N(n)>>, <<>>) : pa \in paths, n \in 1 .. maxN}
 
+(***************************************************************************)
+(* C07: comparisons and boolean operators, claimed type pairs only         *)
+(***************************************************************************)
+Dec(n, k) == NumLit(Fin(FALSE, n, k))
+NaNExpr == Bin("div", N(0), N(0))
+InfExpr == Bin("div", N(1), N(0))
+NumOperands == {N(0), N(1), N(2), Dec(1, 1), Neg(N(1)), NaNExpr, InfExpr}
+StrOperands == {Lit(""), Lit("a"), Lit("1"), Lit(" 1"), Lit("x1"), Lit("2")}
+\* flat node-set operands relative to the document element of the value documents
+NSOperands ==
+    {Rel1("child", NTName(n)) : n \in {"b", "c", "d", "zz"}} \cup {Rel1("child", NTAny), Rel1("attribute", NTName("a")),
+     Rel1("attribute", NTAny),
+     Path(FALSE, <<Step("child", NTName("e"), <<>>), Step("child", NTAny, <<>>)>>),
+     Path(FALSE, <<Step("child", NTName("b"), <<>>), Step("child", NTText, <<>>)>>)}
+BoolOperands == {Call("true", <<>>), Call("false", <<>>)}
+
+PoolC07cmpSets ==
+ << {Bin(op, l, r) : op \in CmpOps, l \in NumOperands, r \in NumOperands},
+    {Bin(op, l, r) : op \in CmpOps, l \in NSOperands, r \in NumOperands},
+    {Bin(op, l, r) : op \in CmpOps, l \in NumOperands, r \in NSOperands},
+    {Bin(op, l, r) : op \in EqOps, l \in StrOperands, r \in StrOperands},
+    {Bin(op, l, r) : op \in EqOps, l \in NSOperands, r \in StrOperands},
+    {Bin(op, l, r) : op \in EqOps, l \in StrOperands, r \in NSOperands},
+    {Bin(op, l, r) : op \in EqOps, l \in NSOperands, r \in NSOperands} >>
+
+AnyOperands == {N(0), N(1), NaNExpr, Lit(""), Lit("a"), Rel1("child", NTName("b")), Rel1("child", NTName("zz")),
+                Call("true", <<>>), Call("false", <<>>), Bin("=", Rel1("child", NTName("b")), N(1)),
+                Bin(">", N(2), N(1))}
+\* an operand whose evaluation raises a deliberate argument-type complaint:
+\* it must NOT be evaluated when the left operand decides (short-circuit)
+Bomb == Call("contains", <<N(1), Lit("x")>>)
+PoolC07bool ==
+    {Bin(op, l, r) : op \in BoolOps, l \in AnyOperands, r \in AnyOperands}
+    \cup {Call("not", <<x>>) : x \in BoolOperands \cup NSOperands
+                                   \cup {Bin("=", Rel1("child", NTName("b")), N(1)), Bin("and", Rel1("child", NTAny), Rel1("child", NTName("zz")))}}
+    \cup {Call("boolean", <<x>>) : x \in AnyOperands}
+    \cup BoolOperands
+    \cup {Bin("or", x, Bomb) : x \in {Call("true", <<>>), N(1), Lit("a"), Path(TRUE, <<Step("child", NTAny, <<>>)>>)}}
+    \cup {Bin("and", x, Bomb) : x \in {Call("false", <<>>), N(0), Lit(""), Rel1("child", NTName("zz"))}}
+    \cup {Bin(o1, Bin(o2, x, y), z) : o1 \in BoolOps, o2 \in BoolOps, x \in BoolOperands, y \in BoolOperands, z \in BoolOperands}
+
+\* the same expressions as predicates of a Select
+AsPredicate(P) == {Path(FALSE, <<Step("self", NTNode, <<p>>)>>) : p \in P}
+                  \cup {Path(TRUE, <<DosNode, Step("child", NTAny, <<p>>)>>) : p \in P}
+
+(***************************************************************************)
+(* C08: arithmetic                                                         *)
+(***************************************************************************)
+NumLeavesSmall == {N(0), N(1), N(2), N(3), N(7), Dec(1, 1), Dec(1, 2), Dec(3, 1), N(999999), N(1000000)}
+NumLeavesDoc ==
+    {Call("count", <<p>>) : p \in {Rel1("child", NTName("b")), Rel1("child", NTName("zz")), Rel1("child", NTAny)}}
+    \cup {Call("sum", <<p>>) : p \in {Rel1("child", NTName("b")), Rel1("child", NTName("zz"))}}
+    \cup {Call("number", <<p>>) : p \in {Rel1("child", NTName("b")), Rel1("child", NTName("c")), Rel1("child", NTName("zz")),
+                                          Lit("12"), Lit(" 7 "), Lit("x"), Lit(""), Lit("-0.5"), Lit("1e3"), Lit("+1"), Lit("Inf"),
+                                          Lit("0x10"), Lit("1 2"), Lit("."), Lit("5."), Lit(".5"), Lit("-"), Lit("--1")}}
+    \cup {Call("number", <<>>)}
+    \cup {Call("string-length", <<p>>) : p \in {Rel1("child", NTName("c")), Lit("abc")}}
+NumUnary(X) == {Neg(x) : x \in X} \cup {Call("floor", <<x>>) : x \in X} \cup {Call("ceiling", <<x>>) : x \in X}
+NumBinary(X, Y) == {Bin(op, x, y) : op \in ArithOps, x \in X, y \in Y}
+
+PoolC08d1(L) == L \cup NumUnary(L) \cup NumBinary(L, L)
+PoolC08d2(L, M) == NumBinary(NumBinary(L, L), M) \cup NumBinary(M, NumBinary(L, L))
+                   \cup NumUnary(NumBinary(L, L)) \cup NumBinary(NumUnary(L), M)
+\* string() of numbers: integers, fractions, negative, zero, specials
+PoolC08str(L) == {Call("string", <<x>>) : x \in PoolC08d1(L)}
+
+(***************************************************************************)
+(* C09: string functions                                                   *)
+(***************************************************************************)
+StrPool == {"", "a", "ab", "aba", "A b", " a  b ", "\t", "-", "12", "a-b", "B"}
+StrLits(S) == {Lit(x) : x \in S}
+StrNS == {Rel1("child", NTName("b")), Rel1("child", NTName("zz")), Rel1("child", NTName("d")), Rel1("attribute", NTName("b")),
+          SelfDot}
+Fun2(f, A, B) == {Call(f, <<x, y>>) : x \in A, y \in B}
+Fun1(f, A) == {Call(f, <<x>>) : x \in A}
+Fun2Names == <<"contains", "starts-with", "ends-with", "substring-before", "substring-after", "concat">>
+PoolC09twoSets == [i \in 1 .. Len(Fun2Names) |-> Fun2(Fun2Names[i], StrLits(StrPool) \cup StrNS, StrLits(StrPool))]
+PoolC09one ==
+    UNION {Fun1(f, StrLits(StrPool) \cup StrNS) : f \in {"string-length", "normalize-space", "lower-case", "string"}}
+    \cup {Call("normalize-space", <<>>), Call("string-length", <<>>), Call("string", <<>>)}
+    \cup {Call("concat", <<x, y, z>>) : x \in StrLits({"a", ""}), y \in StrNS, z \in StrLits({"b", " "})}
+    \cup {Call("translate", <<x, y, z>>) : x \in StrLits({"", "aba", "a-b", "A b"}) \cup {Rel1("child", NTName("d"))},
+                                            y \in StrLits({"", "a", "ab", "ba-", "aa"}), z \in StrLits({"", "x", "xy", "xyz"})}
+    \cup {Call("string-join", <<p, sep>>) : p \in {Rel1("child", NTName("b")), Rel1("child", NTName("zz")), Rel1("child", NTAny),
+                                                     Path(FALSE, <<Step("child", NTAny, <<>>), Step("child", NTText, <<>>)>>)},
+                                             sep \in StrLits({"", ",", " - "})}
+SubStarts == {Neg(N(3)), Neg(N(1)), Neg(Dec(1, 1)), N(0), Dec(1, 1), N(1), Dec(3, 1), N(2), Dec(5, 1), N(3), N(5), N(6), N(10),
+              Neg(Dec(3, 1)), Dec(1, 2)}
+SubLens == {Neg(N(1)), N(0), Dec(1, 1), N(1), Dec(3, 1), N(2), Dec(5, 1), N(3), N(10), Dec(1, 2), N(4)}
+PoolC09sub ==
+    {Call("substring", <<s, a>>) : s \in StrLits({"", "a", "12345"}) \cup {Rel1("child", NTName("d"))}, a \in SubStarts}
+    \cup {Call("substring", <<s, a, b>>) : s \in StrLits({"", "a", "12345"}) \cup {Rel1("child", NTName("d"))},
+                                            a \in SubStarts, b \in SubLens}
+\* compositions of depth 2
+PoolC09nest ==
+    {Call("concat", <<Call("substring-before", <<x, Lit("b")>>), Call("substring-after", <<x, Lit("b")>>)>>) : x \in StrLits(StrPool)}
+    \cup {Call("string-length", <<Call("normalize-space", <<x>>)>>) : x \in StrLits(StrPool) \cup StrNS}
+    \cup {Call("contains", <<Call("lower-case", <<x>>), Call("translate", <<y, Lit("AB"), Lit("ab")>>)>>) :
+             x \in StrLits(StrPool), y \in StrLits(StrPool)}
+    \cup {Call("substring", <<Call("concat", <<x, Lit("xyz")>>), Call("string-length", <<x>>), N(2)>>) : x \in StrLits(StrPool)}
+    \cup {Call("starts-with", <<Call("normalize-space", <<x>>), Call("substring", <<x, N(2)>>)>>) : x \in StrLits(StrPool)}
+
 =============================================================================
